@@ -19,7 +19,7 @@ CASES = {"quick": 6000, "thorough": 120000}
 MIN_CASES_PER_SHARD = 50
 CASE_TIMEOUT = 30
 RULE = ("one case = one generated map (3..12 nodes; magnitudes: unit scale, projected metres ~1e7, degrees; classes: random, "
-        "dyadic grid, long edges crossing the disc, items within one float32 ulp of the search-box border, items exactly at "
+        "dyadic grid, a node millimetres inside a 2-50 km disc at its extreme-longitude point at high latitude, long edges crossing the disc, items within one float32 ulp of the search-box border, items exactly at "
         "the radius) loaded in InMemMap and SqliteMap, with 4 query points x radii (incl. infinite) x max_elmt; every "
         "nodes_closeto/edges_closeto answer is compared with the model's full scan. Non-trivial = the true answer is neither "
         "empty nor everything; distinct = hash of (map, query)")
@@ -32,7 +32,7 @@ ANCHORS = [("leuvenmapmatching/map/inmem.py", "InMemMap.nodes_closeto"),
            ("leuvenmapmatching/map/sqlite.py", "SqliteMap.all_edges")]
 CELLS = [f"{b}:{q}:{m}" for b in ("inmem", "sqlite") for q in ("nodes", "edges") for m in ("unit", "big", "latlon")]
 FLOORS = {f"cell:{c}": 300 for c in CELLS}
-FLOORS.update({"class:long_edge": 100, "class:border32": 100, "class:at_radius": 100, "class:infinite": 100,
+FLOORS.update({"class:tangent": 40, "class:long_edge": 100, "class:border32": 100, "class:at_radius": 100, "class:infinite": 100,
                "queries_judged": 8000, "truncations_judged": 1500, "long_edge_through_disc": 60,
                "item_exactly_at_radius": 40, "item_within_ulp32_of_box_border": 60})
 ASSUMPTIONS = ["membership is not judged for items whose reference distance is within 1e-9*r (planar; exactly-equal is judged by "
@@ -131,12 +131,37 @@ def gen_case(rng, i, tier):
         q["cls"] = "border32"
     if rng.random() < 0.25:
         queries.append({"loc": list(rng.choice(pts)), "r": math.inf, "k": rng.choice([None, 2]), "cls": "infinite"})
+    tangent = None
+    if mag == "latlon" and rng.random() < 0.2:
+        # a node a few millimetres inside a LARGE disc at the bearing where the disc reaches its extreme longitude, at high
+        # latitude: a search box whose east-west half-width is the flat approximation d/cos(lat) loses it
+        base = (rng.choice([-1, 1]) * rng.uniform(55, 72), base[1])
+        tangent = {"r": rng.choice([2000.0, 5000.0, 20000.0, 50000.0]), "side": rng.choice([1, -1]), "inset": rng.choice([0.003, 0.01, 0.05])}
     # place
     if mag == "latlon":
         ll = rg.ae_place(base, pts)
         nodes = [[j, [ll[j][0], ll[j][1]]] for j in range(len(pts))]
         for q in queries:
             q["loc"] = list(rg.ae_place(base, [q["loc"]])[0])
+        if tangent:
+            loc = tuple(queries[0]["loc"])
+            r = tangent["r"]
+            rr = r - tangent["inset"]
+            # bearing of the extreme longitude, found numerically with the reference geometry
+            best = None
+            for k in range(-400, 401):
+                bg = 90.0 * tangent["side"] + k * 0.01
+                q = rg.gc_dest(loc, bg, rr)
+                off = (q[1] - loc[1]) * tangent["side"]
+                if best is None or off > best[0]:
+                    best = (off, q)
+            j = len(nodes)
+            nodes.append([j, [best[1][0], best[1][1]]])
+            edges.append((0, j))
+            edges.append((j, 0))
+            queries[0]["r"] = r
+            queries[0]["cls"] = "tangent"
+            cls = "tangent"
     else:
         nodes = [[j, [base[0] + p[0], base[1] + p[1]]] for j, p in enumerate(pts)]
         for q in queries:
